@@ -10,7 +10,7 @@ _UPDATES = [0]
 
 
 class IBM:
-    def __init__(self, modules, kills=None, age=False, logfile=None, marker="sibm", agelimit=None, kill_tags=None, touchfile=None, dose=False, settle_age=None, age_rate=1.0, module_state=False, **kw):
+    def __init__(self, modules, kills=None, age=False, logfile=None, marker="sibm", agelimit=None, kill_tags=None, touchfile=None, dose=False, settle_age=None, age_rate=1.0, module_state=False, settle_tags=None, **kw):
         self.modules = modules
         self.kills = {int(k): list(v) for k, v in (kills or {}).items()}
         self.kill_tags = {int(k): list(v) for k, v in (kill_tags or {}).items()}
@@ -23,6 +23,7 @@ class IBM:
         self.dose, self.settle_age = dose, settle_age
         self.age_rate = age_rate  # 0 is a legal value (the age does not advance) and differs from the default
         self.module_state = module_state
+        self.settle_tags = {int(k): list(v) for k, v in (settle_tags or {}).items()}
 
     def update(self):
         if self.touchfile:
@@ -48,6 +49,9 @@ class IBM:
         tags = self.kill_tags.get(step, [])
         if tags:
             st["alive"] = st.alive & ~np.isin(st["tag"], tags)
+        tags = self.settle_tags.get(step, [])
+        if tags:  # the particles with these tags settle: alive, but not moved any more
+            st["active"] = st.active & ~np.isin(st["tag"], tags)
 
     def close(self):
         self.closed += 1
